@@ -145,3 +145,13 @@ def reproduce_finding(f, ctx):
         res = globals()[w["hook"]](hctx)
         return any(v.get("key") == f.get("key") for v in res.get("violations", []))
     return props_common.reproduce_finding(f, ctx)
+
+
+def _observable(lines):
+    """everything but the interposed LAPACK call lines (the arguments the adaptor passes are how the model is tied to the code; the
+    property is about what comes out: outcome, order, returned block, reconstruction, frame)"""
+    return [l for l in lines if l.split(" ", 1)[0] not in ("potrf", "geqrf", "gesvd")]
+
+
+def property_fails(impl_lines, model_lines):
+    return _observable(impl_lines) != _observable(model_lines)
